@@ -4,7 +4,7 @@
 // Built and started by the driver in .. with expr/hasher.go's map ranges put under control.
 //
 // ALPHABET (spec.go, enum.go): type graphs from a constructor grammar — primitives (int,
-// string, boolean; thorough + bytes), ArrayOf, MapOf, Object (0..3 attributes, thorough 4),
+// string, boolean), ArrayOf, MapOf, Object (0..3 attributes, thorough 4),
 // Union (1..3 alternatives, thorough 4; "wide" family up to 4 in every order), user types
 // and result types (with views), as one-hole contexts composed to depth 3 (thorough 4, plus
 // a narrow depth 5); graphs of 2 (thorough 3) mutually referring definitions from a body
@@ -44,6 +44,7 @@ import (
 	"sort"
 	"strings"
 	"sync"
+	"sync/atomic"
 	"time"
 
 	"verif/core"
@@ -70,16 +71,54 @@ type harness struct {
 	fams   []*family
 	recs   [][][]instRec // [family][base][variant]
 	failed []map[int]bool
-	finds  []finding
 	mu     sync.Mutex
+	tally  map[string]*sigStat
+}
+
+// sigStat keeps, per violation signature, the number of failing cases and the first one in
+// enumeration order (so that memory does not grow with the number of failing cases and the
+// reported example does not depend on scheduling).
+type sigStat struct {
+	order [4]int
+	first finding
+	count int64
+}
+
+func less4(a, b [4]int) bool {
+	for i := range a {
+		if a[i] != b[i] {
+			return a[i] < b[i]
+		}
+	}
+	return false
+}
+
+// add records a failing case; order is its position in the enumeration.
+func (h *harness) add(order [4]int, f finding) {
+	h.mu.Lock()
+	defer h.mu.Unlock()
+	st := h.tally[f.Sig]
+	if st == nil {
+		h.tally[f.Sig] = &sigStat{order: order, first: f, count: 1}
+		return
+	}
+	st.count++
+	if less4(order, st.order) {
+		st.order, st.first = order, f
+	}
 }
 
 func (h *harness) gen(id instID) *Graph { return h.fams[id.fam].recipes(id.base)[id.variant]() }
 
-// report hands findings to core in a deterministic order.
-func (h *harness) report(fs []finding) {
-	for _, f := range fs {
-		f := f
+// report hands the tally to core in enumeration order.
+func (h *harness) report() {
+	var stats []*sigStat
+	for _, st := range h.tally {
+		stats = append(stats, st)
+	}
+	sort.Slice(stats, func(i, j int) bool { return less4(stats[i].order, stats[j].order) })
+	for _, st := range stats {
+		f := st.first
 		h.c.Violation(f.Sig, f.What, f.Case, func() bool {
 			for _, again := range execCase(f.Case) {
 				if again.Sig == f.Sig {
@@ -88,6 +127,9 @@ func (h *harness) report(fs []finding) {
 			}
 			return false
 		})
+		for i := int64(1); i < st.count; i++ {
+			h.c.Violation(f.Sig, "", nil, nil) // counted by core, nothing else happens
+		}
 	}
 }
 
@@ -151,7 +193,9 @@ func (h *harness) phaseTermination() {
 		for range failed {
 			c.Outcome("does-not-terminate")
 		}
-		h.finds = append(h.finds, fs...)
+		for k, f := range fs {
+			h.add([4]int{0, fi, k, 0}, f)
+		}
 	}
 }
 
@@ -168,7 +212,6 @@ func (h *harness) phaseHash() bool {
 			return false
 		}
 		h.recs[fi] = make([][]instRec, f.n)
-		perBase := make([][]finding, f.n)
 		samples := make([]any, f.n) // offered to core in index order after the parallel part
 		const chunk = 64
 		nchunks := (f.n + chunk - 1) / chunk
@@ -215,10 +258,14 @@ func (h *harness) phaseHash() bool {
 						}
 						sort.Strings(entries)
 					}
+					seq := 0
 					for _, e := range entries {
 						cr := checkCopy(g, e, v == 0)
 						execs += cr.execs
-						perBase[b] = append(perBase[b], cr.findings...)
+						for _, fd := range cr.findings {
+							h.add([4]int{1, fi, b, v*64 + seq}, fd)
+							seq++
+						}
 						switch {
 						case len(cr.findings) > 0:
 							c.Outcome("copy " + e[:strings.Index(e, "(")] + ": not equal to the original")
@@ -235,9 +282,6 @@ func (h *harness) phaseHash() bool {
 			}
 			c.Exec(execs)
 		})
-		for _, fs := range perBase {
-			h.finds = append(h.finds, fs...)
-		}
 		for _, sm := range samples {
 			if sm != nil {
 				c.Sample(sm)
@@ -370,16 +414,19 @@ func (h *harness) phasePairs() {
 		return false
 	})
 	c.Note("violating_pairs_examined", len(all))
-	res := make([][]finding, len(all))
+	var undecided int64
 	core.Parallel(len(all), func(i int) {
-		res[i] = checkPair(h.gen(all[i].a), h.gen(all[i].b))
+		fs := checkPair(h.gen(all[i].a), h.gen(all[i].b))
+		if len(fs) == 0 {
+			atomic.AddInt64(&undecided, 1)
+		}
+		for k, f := range fs {
+			h.add([4]int{2, i, k, 0}, f)
+		}
 	})
 	c.Exec(int64(16 * len(all)))
-	for i, fs := range res {
-		if len(fs) == 0 {
-			c.HarnessError("pair %v/%v was a candidate but re-deciding it found nothing", all[i].a, all[i].b)
-		}
-		h.finds = append(h.finds, fs...)
+	if undecided > 0 {
+		c.HarnessError("%d candidate pairs were not confirmed when re-decided on the full strings", undecided)
 	}
 }
 
@@ -407,7 +454,9 @@ func (h *harness) phaseStability(nativeMaxBaseNodes int) {
 				nTypes++
 				nVisits += int64(sr.visits)
 				nOrders += int64(sr.orders)
-				h.finds = append(h.finds, sr.findings...)
+				for k, fd := range sr.findings {
+					h.add([4]int{3, fa, b, v*64 + k}, fd)
+				}
 				if len(sr.findings) > 0 {
 					c.Outcome("stability: hash depends on map order")
 				} else {
@@ -419,7 +468,9 @@ func (h *harness) phaseStability(nativeMaxBaseNodes int) {
 					fs, ex := checkNative(g)
 					c.Exec(ex)
 					nNative++
-					h.finds = append(h.finds, fs...)
+					for k, fd := range fs {
+						h.add([4]int{3, fa, b, v*64 + 32 + k}, fd)
+					}
 					if len(fs) > 0 {
 						c.Outcome("native order x50: several answers")
 					} else {
@@ -604,7 +655,6 @@ func (h *harness) phaseIndependence(thorough bool) {
 	c := h.c
 	cases := h.dupCases(thorough)
 	c.Note("independence_cases(type x copy entry point)", len(cases))
-	perCase := make([][]finding, len(cases))
 	samples := make([]any, len(cases))
 	var muts, changed int64
 	var mu sync.Mutex
@@ -635,7 +685,7 @@ func (h *harness) phaseIndependence(thorough bool) {
 				c.Outcome("mutation panicked inside goa: " + r.desc)
 			case r.finding != nil:
 				ch++
-				perCase[i] = append(perCase[i], *r.finding)
+				h.add([4]int{4, i, m, 0}, *r.finding)
 				c.Outcome("mutation of the copy changed the original")
 			default:
 				c.Outcome("mutation of the copy left the original unchanged")
@@ -654,9 +704,6 @@ func (h *harness) phaseIndependence(thorough bool) {
 	c.Note("independence_mutations_that_changed_the_original", changed)
 	if expiredAt >= 0 {
 		c.Incomplete(fmt.Sprintf("independence phase: deadline reached, cases from about #%d of %d not run", expiredAt, len(cases)))
-	}
-	for _, fs := range perCase {
-		h.finds = append(h.finds, fs...)
 	}
 	for _, sm := range samples {
 		if sm != nil {
@@ -684,12 +731,11 @@ func run(c *core.Ctx) {
 	prims := []string{"int", "string", "boolean"}
 	depth, tagDepth := 3, 2
 	if thorough {
-		prims = append(prims, "bytes")
 		depth, tagDepth = 4, 3
 	}
 	ctxs := contexts(thorough)
 	cs := newClosedSpace(prims, ctxs, depth)
-	h := &harness{c: c}
+	h := &harness{c: c, tally: map[string]*sigStat{}}
 	recOpts := variantOpts{perms: true}
 	if thorough {
 		recOpts.metaSets = metaSetsSmall
@@ -736,7 +782,7 @@ func run(c *core.Ctx) {
 		timed("C stability", func() { h.phaseStability(6) })
 	}
 	timed("D independence", func() { h.phaseIndependence(thorough) })
-	timed("E report", func() { h.report(h.finds) })
+	timed("E report", h.report)
 }
 
 func replay(c *core.Ctx, path string) {
